@@ -177,6 +177,12 @@ def execOp (chk : Bool) (tok : List String) : String :=
   | ["ffs_targets", _, r0, r1, r2, r3, c, z] =>
       let b0 := [parseInts r0, parseInts r1, parseInts r2, parseInts r3]
       ",".intercalate ((FfS.signLeafTargets b0 (parseNats c) (parseInts z)).map fun x => toString x.toBits.toNat)
+  | ["ntru_base", a, b] =>
+      match parseInts a, parseInts b with
+      | [a], [b] => (match RingZ.ntruBase a b with
+          | none => "none"
+          | some (cf, cg) => s!"{cf} {cg}")
+      | _, _ => "bad-op"
   | ["field_norm", f] => let f := parseInts f; renderInts (RingZ.fieldNorm f.length f)
   | ["lift_poly", f] => renderInts (RingZ.lift (parseInts f))
   | ["galois_adjoint", f] => renderInts (RingZ.adjoint (parseInts f))
